@@ -64,7 +64,7 @@ pub struct Probe {
     pub lead: Vec<u8>,
 }
 
-pub const FILL_CAP: usize = 64 * 1024;
+pub const FILL_CAP: usize = 72 * 1024;
 
 /// deterministic continuation pattern: low nibble position-dependent, type bits 000, no continuation bit -
 /// so an unterminated TLF terminates at once and shifted data slices are visible
@@ -494,11 +494,12 @@ fn directed_tlfs() -> Vec<Vec<u8>> {
         vals.push((1u128 << 32) - 1 - k);
         vals.push((1u128 << 32) + k);
     }
+    vals.extend([(1u128 << 64) + 6, (1u128 << 64) + 1, (1u128 << 64) + 2, (1u128 << 64) + 7, (1u128 << 68) + 2, (1u128 << 96) + 7, (1u128 << 124) + 6]);
     vals.extend([1u128 << 36, (1u128 << 44) - 1, 1u128 << 31, (1u128 << 28) + 5, 255, 256, 4095, 4096, 65535, 65536, 0, 1, 2, 3]);
     for ty in [RTy::Octet, RTy::Int, RTy::Uint, RTy::List] {
         for &val in &vals {
             let mut n = 1;
-            while val >> (4 * n) != 0 {
+            while n < 32 && val >> (4 * n) != 0 {
                 n += 1;
             }
             for extra in 0..=3 {
@@ -526,6 +527,20 @@ fn directed_tlfs() -> Vec<Vec<u8>> {
                 let mut t = build_tlf_raw(0, 0x10 + size as u128, size).unwrap();
                 t[bad_at] |= tb << 4;
                 v.push(t);
+            }
+        }
+    }
+    // numeric TLFs declaring widths just beyond 2^16 (1..9 mod 2^16), backed by that many bytes
+    for tyv in [RTy::Int, RTy::Uint, RTy::Octet] {
+        for w in [65535usize, 65536, 65537, 65538, 65540, 65544, 65545] {
+            v.push(crate::refm::tlf::build_tlf(tyv, w, 0));
+        }
+    }
+    // numeric TLFs of three bytes declaring 256*k + w data bytes (w in 1..=8)
+    for tyv in [RTy::Int, RTy::Uint] {
+        for k in 1..=3usize {
+            for w in [1usize, 2, 4, 8, 9] {
+                v.push(crate::refm::tlf::build_tlf(tyv, 256 * k + w, 0));
             }
         }
     }
@@ -677,6 +692,10 @@ pub fn run(ctx: &mut Ctx) {
         }
         for lead in [
             vec![0x63, 0x02, 0x01],
+            vec![0x65, 0x00, 0x01, 0x02, 0x01],
+            vec![0x64, 0x01, 0x02, 0x01],
+            vec![0x65, 0xff, 0xff, 0x02, 0x01],
+            vec![0x65, 0x80, 0x00, 0x02, 0x01],
             vec![0x64, 0x00, 0x02, 0x01],
             vec![0x65, 0x00, 0x00, 0x02, 0x01],
             vec![0x66, 0x00, 0x00, 0x00, 0x02, 0x01],
@@ -738,7 +757,7 @@ pub fn floors() -> Vec<String> {
 }
 
 pub const RULE: &str = "cases = (probe position, leading bytes): a message skeleton carries the bytes under test at the transaction-id, list-length, entry-value, group-no, body-tag, scaler, status or time position, completed deterministically \
-to the length the REFERENCE TLF decoder prescribes (capped at 64 KiB, beyond that the expected outcome is an error). Exhaustive: every 1- and 2-byte leading sequence at all 8 positions; thorough: all 2^24 3-byte sequences at the tid / list-length / value positions (quick: 600k sampled). \
+to the length the REFERENCE TLF decoder prescribes (capped at 72 KiB, beyond that the expected outcome is an error). Exhaustive: every 1- and 2-byte leading sequence at all 8 positions; thorough: all 2^24 3-byte sequences at the tid / list-length / value positions (quick: 600k sampled). \
 Directed: TLFs of up to 12 bytes with nibble values 2^32-1-k .. 2^32+k (k<=16), 2^36, 2^44-1, with 0..3 leading zero groups; every continuation byte with non-zero type bits; reserved first bytes; booleans all 256 bytes; \
 integers of width 1..9 x signed/unsigned x leading byte in {00,01,7f,80,fe,ff} at value / status / scaler / group-no / time positions; strings of every length 0..300 and up to 70000 with position-dependent content; nested list-typed values and both time encodings. \
 Oracle: value <=> value with equal content and variant, error <=> error (which error is not compared); the same bytes with a valid checksum go through complete::parse against the reference parser. \
